@@ -29,6 +29,8 @@ func init() {
 
 func runC06(w *World, r *Report) {
 	hrQueueSizeParams(w, r, "R8")
+	hrQueuedRequestIdentity(w, r, "R8")
+	hrOutputParamsWrittenInPlace(w, r, "R8")
 	hrEnvOfItsOwn(w, r, "R8")
 	hrTimeoutAboveTTL(w, r, "R8")
 	hrScoreIsPriority(w, r, "R5")
@@ -581,7 +583,7 @@ func c06RequestStateMachine(w *World, r *Report) {
 		r.Undec("R1", "Request.setSignal", token.NoPos, "function not found")
 	} else {
 		d := CallsIn(ss, false, "sync.WaitGroup).Done")
-		r.Check(len(d) == 1 && len(CondsOf(d[0].Block())) == 0 && strings.HasSuffix(Path(d[0].Common().Args[0]), "r.waitGroup"), "R1", "setSignal/releases-the-waiter-once", ss.Pos(), "setSignal is one unconditional waitGroup.Done on the request's own wait group")
+		r.Check(len(d) == 1 && len(CondsOf(d[0].Block())) == 0 && alwaysRuns(d[0]) && strings.HasSuffix(Path(d[0].Common().Args[0]), "r.waitGroup"), "R1", "setSignal/releases-the-waiter-once", ss.Pos(), "setSignal is one unconditional waitGroup.Done on the request's own wait group")
 	}
 	constName := func(v ssa.Value) string {
 		for _, n := range []string{"requestEnqueued", "requestProcessing", "requestProcessed", "requestSuccess", "requestTimeout"} {
